@@ -178,6 +178,8 @@ def e2_checks(pid, tier, seed):
         out.append(spec('total_sym%d' % K, 'chk_total', S(K), '%d fully symbolic bytes through every transport entry point, 3 buffer capacities, interleaved reset/finalize' % K, must_cover=[5]))
         out.append(spec('total_start_sym%d' % (K - 1), 'chk_total', START + S(K - 1), 'start sequence + %d symbolic bytes through every transport entry point' % (K - 1), must_cover=[5]))
         out.append(spec('arraybuf_big', 'chk_arraybuf_big', S(3), 'ArrayBuf<65600> filled across the 2^16 boundary (narrow length counters)', must_cover=[18], max_steps=20000000))
+        cells = [0x55] * 52; cells[50] = 'S'; cells[51] = 'S'
+        out.append(spec('vec_oom_52', 'chk_vec_oom', cells, 'payload of 52 bytes with an allocator that refuses requests above 64 bytes: the Vec-backed encoder / decoder report OutOfMemory, never abort', must_cover=[71], alloc_fail_above=64))
         # stack growth: the same stream with 40 vs 160 noise bytes must reach the same call depth
         gfr = list(_lib().transport_encode(bytes([0x12, 0x34, 0x56, 0x78])))
         for L in (40, 160):
@@ -193,6 +195,11 @@ def e2_checks(pid, tier, seed):
             runs += [('runs_12', R * 5 + S(1) + R * 6), ('runs_s7s', S(2) + R * 7 + S(1))]
         for nm, cells in runs:
             out.append(spec('encode_' + nm, 'chk_encode', cells, 'payload of %d bytes: concrete runs of 0x1b with %d symbolic bytes inside/around them (several inserted escapes per run)' % (len(cells), sum(1 for c in cells if c == 'S')), must_cover=[7]))
+        # growable buffer under allocation failure (requests above 64 bytes fail): reported, never an abort
+        for L, pos in (((52, (50, 51)), (57, (52, 53, 54, 55))) if q else ((49, (47, 48)), (52, (50, 51)), (55, (51, 52, 53, 54)), (57, (52, 53, 54, 55)), (61, (56, 57, 58, 59)))):
+            cells = [0x55] * L
+            for o in pos: cells[o] = 'S'
+            out.append(spec('vec_oom_%d' % L, 'chk_vec_oom', cells, 'payload of %d bytes (%d symbolic near the point where the Vec must grow past 64 bytes) with an allocator that refuses requests above 64 bytes: encode::<Vec> and Decoder<Vec> report OutOfMemory or deliver, never abort' % (L, len(pos)), must_cover=[71], alloc_fail_above=64))
         # runs of 0x1b straddling offsets 32 / 64 (chunked copies)
         for off in ((29, 61) if q else (28, 29, 30, 31, 32, 60, 61, 62, 63, 125)):
             cells = [0x55] * off + S(4) + [0x55] * 5
